@@ -474,6 +474,33 @@ theorem no_panic_agileDecrypt (i : AgIn) : (agileDecrypt i).isPanic = false := b
     · rename_i h1 h2; exfalso; apply h2; simp [sliceOK]; omega
     · exact no_panic_pkgLoop' i hk.2.1 _ 0
 
+/-! ## basic-string unescaping and the standard verifier -/
+
+/-- `bstrUnmarshal` slices the string only at the positions the regular expression matched -/
+theorem guards_bstr :
+    Facts.C14.index_bstrUnmarshal = ["s[cursor:match[0]]", "match[0]", "s[match[0]:match[1]]", "match[0]", "match[1]",
+      "match[1]", "match[1]", "s[match[0]+2:match[1]-1]", "match[0]", "match[1]", "s[cursor:]"] ∧
+    Facts.C14.conds_bstrUnmarshal = ["subStr == \"_x005F_\"", "bstrExp.MatchString(subStr)", "cursor < l"] := by decide
+
+/-- clause "any byte sequence … never panic" for every string payload (shared strings, inline strings,
+cached formula text): for EVERY byte string — any number of escapes, truncated escapes (`_`, `_x`, `_x0`,
+… `_x000A` at the end), adjacent and overlapping candidates — every slice `bstrUnmarshal` takes is in range -/
+theorem no_panic_bstr (s : List Char) : (bstrUnmarshal s).isPanic = false :=
+  bstrSegs_no_panic s.length _ 0 (Nat.zero_le _) (bstrMatches_chain s _ 0)
+
+/-- `standardEncryptionVerifier` behind the per-algorithm size table of `standardDecrypt`: for EVERY length
+of the verifier block and every algorithm id (AES: 72 bytes needed, anything else is RC4: 60) the slices
+`blob[:4] … blob[40:60]` / `blob[40:72]` are in range or the block is rejected first -/
+theorem no_panic_standard_verifier (vlen algID keySize pkgLen pkgSize : Nat) (h : 8 ≤ pkgLen) :
+    (sdVerifier vlen algID keySize pkgLen pkgSize).isPanic = false :=
+  no_panic_sdVerifier vlen algID keySize pkgLen pkgSize h
+
+/-- … and a block shorter than the table says is an error, never a slice -/
+theorem standard_verifier_rejects_short (vlen algID keySize pkgLen pkgSize : Nat)
+    (h : vlen < (if isAES algID then 72 else 60)) : sdVerifier vlen algID keySize pkgLen pkgSize = .err := by
+  unfold sdVerifier verifierSize
+  rw [if_pos h]
+
 /-! ## unzip limits -/
 
 /-- the size check of `ReadZipReader` is the first thing done with an entry, before the branches that
